@@ -340,6 +340,41 @@ void h_primary_prologue(void)
   V_ASSERT(0, "primary_thread: the run is cut where the workers start");
 }
 
+
+/* ================= B1: priority-queue primitives up_heap()/down_heap() (bounded: heap size <= HEAP_N) =================
+   These are the bodies behind enqueue()/dequeue(); the monitor harnesses of compress.c/expand.c use the stub contract
+   "dequeue hands out the old head at root[size]; the multiset of queued elements is otherwise preserved". */
+#ifndef HEAP_N
+#define HEAP_N 7
+#endif
+static int pos_lt_f(const struct position *a, const struct position *b) { return a->major < b->major || (a->major == b->major && a->minor < b->minor); }
+void h_heap(void)
+{
+  struct position pool[HEAP_N + 1]; struct position *root[HEAP_N + 1]; struct position *old[HEAP_N + 1];
+  V_IN(unsigned, n);
+  V_IN(int, op);
+  unsigned i, j;
+  V_ASSUME(n >= 1 && n <= HEAP_N);
+  for (i = 0; i <= HEAP_N; i++) { unsigned short a, b; pool[i].major = a; pool[i].minor = b; root[i] = &pool[i]; old[i] = root[i]; }
+  /* min-heap order on root[0..n) before the operation */
+  for (i = 1; i < HEAP_N; i++) if (i < n) V_ASSUME(!pos_lt_f(root[i], root[(i - 1) / 2]));
+  if (op) {
+    /* enqueue: the new element sits at root[n], heap holds n elements */
+    up_heap(root, n);
+    for (i = 1; i <= HEAP_N; i++) if (i <= n) V_ASSERT(!pos_lt_f(root[i], root[(i - 1) / 2]), "up_heap: heap order holds on the n+1 elements (the head is a minimum)");
+    for (i = 0; i <= HEAP_N; i++) { unsigned cnt = 0; for (j = 0; j <= HEAP_N; j++) if (j <= n && root[j] == old[i]) cnt++; if (i <= n) V_ASSERT(cnt == 1, "up_heap: the queue holds exactly the old elements plus the new one"); }
+    V_CANARY("enqueue");
+  } else {
+    /* dequeue: called with the new size n-1; the last element is root[n-1] */
+    down_heap(root, n - 1);
+    V_ASSERT(root[n - 1] == old[0], "down_heap: the old head (a minimum) is handed out at root[size]");
+    for (i = 1; i < HEAP_N; i++) if (i + 1 < n) V_ASSERT(!pos_lt_f(root[i], root[(i - 1) / 2]), "down_heap: heap order holds on the remaining elements");
+    for (i = 0; i <= HEAP_N; i++) { unsigned cnt = 0; for (j = 0; j <= HEAP_N; j++) if (j < n && root[j] == old[i]) cnt++; if (i < n) V_ASSERT(cnt == 1, "down_heap: every queued element is still there exactly once"); }
+    V_ASSERT(root[n] == old[n], "down_heap: nothing beyond the queue is touched");
+    V_CANARY("dequeue");
+  }
+}
+
 #ifdef VERIF_REPLAY
 int main(void) { HARNESS(); puts("REPLAY-PASS"); return 0; }
 #endif
